@@ -112,9 +112,22 @@ def check(case):
         out.fail('finite@' + family, 'k-mode spectrum %s' % spec_k[:3])
         return out
     slack = math.exp(-10.0) if family != 'transmission' else 0.0
+    # scale of an emission spectrum: the blackbody ratio of the hottest layer.  The cross-section path may skip a
+    # layer term of at most e^-10 x B(T_layer) (licensed cut-off; the k path has none), and B(T)(t_above - t_below)
+    # cancels relative to B(T) in a nearly transparent layer -- both are absolute in this scale, not relative to a
+    # spectrum that cold upper layers can make orders of magnitude smaller
+    hot = 0.0
+    if family != 'transmission':
+        from vlib.props.c01 import RSUN as _RSUN
+        Rp_ = w['radius'] * synth.RJUP
+        bbh = ref.planck_wn(Wk.wn, float(T.max()))
+        if family == 'emission':
+            hot = bbh / ref.planck_wn(Wk.wn, w['star_T']) * (Rp_ / (w['star_R'] * _RSUN)) ** 2
+        else:
+            hot = bbh * Rp_ ** 2 / (2.0 * (float(mk.star.distance) * 3.08567758e16) ** 2)
     if case['degenerate']:
         out.applies('degenerate-equal')
-        if not close(spec_k, spec_x, rtol=1e-9 + slack, atol=1e-300):
+        if not np.all(np.abs(spec_k - spec_x) <= 1e-9 * np.abs(spec_x) + (slack + 1e-12) * hot + 1e-300):
             out.fail('degenerate-equal@%s,%s' % (family, 'iso' if iso else 'noniso'),
                      'k-mode %s cross-section mode %s (max rel %.2e)' % (spec_k[:3], spec_x[:3], maxrel(spec_k, spec_x)))
         if family == 'transmission':
@@ -162,7 +175,7 @@ def check(case):
             want = flux / ref.planck_wn(Wk.wn, w['star_T']) * (Rp / (w['star_R'] * RSUN)) ** 2
         else:
             want = flux * Rp ** 2 / (2.0 * (float(mk.star.distance) * 3.08567758e16) ** 2)
-        if not close(spec_k, want, rtol=1e-8, atol=1e-300):
+        if not np.all(np.abs(spec_k - want) <= 1e-8 * np.abs(want) + 1e-12 * hot + 1e-300):
             out.fail('k-emission-integral@%s,%s' % (family, 'degenerate' if case['degenerate'] else 'general'),
                      'k-mode %s reference %s (max rel %.2e)' % (spec_k[:3], want[:3], maxrel(spec_k, want)))
     if family == 'transmission':
